@@ -444,10 +444,20 @@ func TestRandom(t *testing.T) {
 	rapid.Check(t, func(t *rapid.T) {
 		c := Case{}
 		nr := rapid.IntRange(1, 5).Draw(t, "rounds")
+		// restart storms: many incarnations in a row that make no progress (an idle node
+		// restarted again and again, or killed before its first hand-over), then work arrives
+		idleHeavy := rapid.IntRange(0, 5).Draw(t, "idleHeavy") == 0
+		if idleHeavy {
+			nr = rapid.IntRange(6, 12).Draw(t, "roundsIdleHeavy")
+		}
 		total := 0
 		for i := 0; i < nr; i++ {
 			var a int
-			switch rapid.IntRange(0, 9).Draw(t, "appendKind") {
+			kind := rapid.IntRange(0, 9).Draw(t, "appendKind")
+			if idleHeavy && i > 0 && i < nr-1 && rapid.IntRange(0, 9).Draw(t, "idleRound") > 0 {
+				kind = 0
+			}
+			switch kind {
 			case 0:
 				a = 0
 			case 1, 2, 3:
